@@ -125,18 +125,34 @@ func (e *Engine) verifyFunc(fc *FuncContract, proved map[string]bool) *Unit {
 	f.frameWhole, f.frameRefs, f.frameAll = u.frameSets(f, fc, pkg, entryHeap)
 	f.run(st)
 
-	// postconditions at every return
+	// postconditions: one obligation per clause over the merged exit state (all return points),
+	// so that restructuring the returns of a function does not rename obligations
 	resT := fn.Signature.Results()
 	sort.SliceStable(f.rets, func(i, j int) bool { return f.rets[i].block < f.rets[j].block })
-	for ri, r := range f.rets {
-		results := r.results
+	if len(f.rets) > 0 {
+		var conds []Term
+		var sts []*State
+		for _, r := range f.rets {
+			conds = append(conds, r.st.reach)
+			sts = append(sts, r.st)
+		}
+		exit := f.mergeStates(conds, sts)
+		var results []Value
+		for i := 0; i < resT.Len(); i++ {
+			var vals []Value
+			for _, r := range f.rets {
+				vals = append(vals, r.results[i])
+			}
+			results = append(results, f.mergeValues(conds, vals, resT.At(i).Type()))
+		}
+		f.exitSt, f.exitResults = exit, results
 		lookup := func(nm string) (CVal, bool) {
 			for i := 0; i < resT.Len(); i++ {
 				if nm == fmt.Sprintf("r%d", i) || (resT.At(i).Name() != "" && resT.At(i).Name() == nm) || (nm == "result" && resT.Len() == 1) {
 					return f.cval(results[i], resT.At(i).Type()), true
 				}
 			}
-			if v, ok := f.ghostLookup(nm, r.st); ok {
+			if v, ok := f.ghostLookup(nm, exit); ok {
 				return v, true
 			}
 			return f.paramLookup(nm)
@@ -147,20 +163,18 @@ func (e *Engine) verifyFunc(fc *FuncContract, proved map[string]bool) *Unit {
 			}
 			return f.paramLookup(nm)
 		}
-		retOrd := ri
-		pos := ""
 		for i, en := range fc.Ensures {
-			ce := &CEnv{u: u, pkg: pkg, lookup: lookup, oldLookup: oldLookup, heap: r.st.heap, old: entryHeap, bound: map[string]CVal{}}
+			ce := &CEnv{u: u, pkg: pkg, lookup: lookup, oldLookup: oldLookup, heap: exit.heap, old: entryHeap, bound: map[string]CVal{}}
 			t, err := ce.evalBool(en.E)
 			if err != nil {
 				u.errorf("ensures %q: %v", en.Text, err)
 				continue
 			}
-			ob := u.oblige("ensures", fmt.Sprintf("%s/ensures#%d@ret%d", name, i, retOrd), en.Text, pos, r.st.reach, t)
+			ob := u.oblige("ensures", fmt.Sprintf("%s/ensures#%d", name, i), en.Text, "", exit.reach, t)
 			for _, rv := range results {
 				ob.retResults = append(ob.retResults, f.term(rv))
 			}
-			ob.retHeap = r.st.heap
+			ob.retHeap = exit.heap
 		}
 	}
 	// frame: nothing outside the modifies clause changes (for objects that existed at entry)
@@ -400,15 +414,17 @@ func (u *Unit) frameObligations(f *Frame, fc *FuncContract, pkg *types.Package, 
 	if f.frameAll {
 		return
 	}
-	for ri, r := range f.rets {
-		for _, region := range sortedKeys(u.rsorts) {
-			cond, ok := u.frameCond(f, region, r.st.heap, entryHeap)
-			if !ok {
-				continue
-			}
-			name := fmt.Sprintf("%s/frame/%s@ret%d", u.name, region, ri)
-			u.oblige("frame", name, "only locations named in modifies change in "+region, "", r.st.reach, cond)
+	if f.exitSt == nil {
+		return
+	}
+	for _, region := range sortedKeys(u.rsorts) {
+		cond, ok := u.frameCond(f, region, f.exitSt.heap, entryHeap)
+		if !ok {
+			continue
 		}
+		name := fmt.Sprintf("%s/frame/%s", u.name, region)
+		ob := u.oblige("frame", name, "only locations named in modifies change in "+region, "", f.exitSt.reach, cond)
+		ob.retHeap = f.exitSt.heap
 	}
 }
 
